@@ -39,6 +39,28 @@ Theorem C09_locate_is_concat_index :
 Proof. exact locate_concat. Qed.
 Print Assumptions C09_locate_is_concat_index.
 
+(* data held in separately merged associated stores: a merged store opened together with associated merged
+   stores answers [i] with the i-th payload of the base concatenation and, for EVERY associated store and EVERY
+   way its records are split over its files (equal to the base's split or not), the i-th record of THAT store's
+   own concatenation — each field set is located through its own store's cumulative size table *)
+Theorem C09_associated_records_follow_their_own_concatenation :
+  forall fs ps ls i, Forall2 (fun p l => merged_parts fs p = Some l) ps ls ->
+    col_values fs ps i = sequence (map (fun l => option_map tag (nth_error (concat (map f_items l)) i)) ls).
+Proof. exact col_values_concat. Qed.
+Print Assumptions C09_associated_records_follow_their_own_concatenation.
+
+Theorem C09_getitem_with_associated_stores :
+  forall fs outp d parts, flookup outp fs = Some (NDir d) -> merged_parts fs outp = Some parts -> Forall file_ok parts ->
+    forall h i ps, mh_ok outp d parts h -> exists c,
+      step fixed_cfg (mkW fs (Some h)) (GetA i ps) =
+      (mkW fs (Some (set_cache h c)),
+       match nth_error (concat (map f_items parts)) i with
+       | Some x => match col_values fs ps i with Some vs => OItemA (tag x) vs | None => OErr EIndex end
+       | None => OErr EIndex
+       end) /\ mh_ok outp d parts (set_cache h c).
+Proof. intros fs outp d parts Ld Hp Hw h i ps. exact (geta_merged fs outp d parts Hp Hw h i ps). Qed.
+Print Assumptions C09_getitem_with_associated_stores.
+
 (* what a completed merge leaves: the inputs moved (in order) into the directory, the merged index iff
    all inputs are identified, metadata listing (name, length) in order; nothing else touched *)
 Theorem C09_merge_result :
